@@ -308,6 +308,12 @@ def reuse_gated_reasons(g, fresh=None):
     if "set_source_file" in frags or ("set_source_restore" in frags and g.get("main_file", "answer.py") != "answer.py"):
         out.append("set_source-under-another-filename-leaves-that-file")
     secs = [i for i, f in enumerate(frags) if f in _SECTION_FRAGS or f == "xr_sections"]
+    resolved_at = [i for i, f in enumerate(frags) if "resolve" in f]
+    if resolved_at and any(i > resolved_at[0] for i in secs):
+        # sections started AFTER the script's own resolve() are still active when the script ends, and
+        # Bundle.run_ics_bundle does not resolve a second time: same family as a crash while sections are active
+        # (open finding; the repair is the same `finally:` that restores outstanding substitutions)
+        out.append("crash-while-sections-are-active")
     if secs and any(f in ("recontext", "recontext_noclear") for f in frags[secs[0] + 1:]):
         # the script itself hands the report ANOTHER submission while sections are active on the first one: the
         # first Submission is then never un-sectioned - the script's own doing (like set_source without
